@@ -106,7 +106,7 @@ Definition multibyte_id (c : conn_case) : bool :=
   existsb (fun x => match snd x with IFrame id _ => (id <? 0) || (127 <? id) | IEof => false end) (cc_inbox c).
 
 Definition corr_conn (c : conn_case) : Z :=
-  if Z.testbit (cc_flags c) 0 || multibyte_id c then 4 else
+  if Z.testbit (cc_flags c) 0 then 4 else
   let tr := case_trace c in
   match tr_sent tr with
   | None => 4
@@ -256,3 +256,34 @@ Definition check_c02 := check_with chk_c02.
 Definition check_c03 := check_with (fun _ _ => chk_c03).
 Definition check_c10 := check_with chk_c10.
 Definition check_order := check_with (fun _ _ => chk_true).
+
+(* ---- C10: two-connection histories, judged on the implementation's observations alone ---- *)
+Record pair_case := {
+  pp_stored : option bytes;              (* auth cookie the first connection stored *)
+  pp_secret : bool;                      (* a secret is configured *)
+  pp_within : bool;                      (* second connection within the expiry *)
+  pp_same_ip : bool;
+  pp_ident1 : option (Z * bytes);        (* (uuid, name) of the first Login Success *)
+  pp_ident2 : option (Z * bytes);
+  pp_flag2 : option bool;                (* should_authenticate of the second Encryption Request *)
+  pp_auth_called2 : bool;
+  pp_issued1 : bool }.                   (* the first connection was routed (outcome Ok) *)
+
+Definition ident_eqb (a b : option (Z * bytes)) : bool :=
+  match a, b with
+  | Some (u, n), Some (u', n') => (u =? u') && beq n n'
+  | _, _ => false
+  end.
+
+Definition check_c10_pair (p : pair_case) : Z :=
+  moni (
+    (* a routed, freshly authenticated player got a cookie iff a secret is configured *)
+    (if pp_issued1 p then Bool.eqb (match pp_stored p with Some _ => true | None => false end) (pp_secret p) else true)
+    && match pp_stored p, pp_flag2 p with
+       | Some _, Some flag =>
+           if pp_within p && pp_same_ip p
+           then negb flag && negb (pp_auth_called2 p) && ident_eqb (pp_ident1 p) (pp_ident2 p)
+           else flag                       (* expired or other IP: told to authenticate *)
+       | None, Some flag => flag           (* nothing stored: nothing to present *)
+       | _, None => true                   (* the second connection ended before the request *)
+       end).
